@@ -36,7 +36,7 @@ LEVEL_NOTE = ('Lean kernel; hand-written models validated by correspondence (not
 TECHNIQUE = 'Lean 4 theorems over an executable model of query __eq__/calc_labels/SMARTS reader + regenerated tables + differential execution'
 HAS_DRIVER = True
 EXTRA_MODULES = []
-FINDINGS_MODULE = None
+FINDINGS_MODULE = 'ChythonModel.Findings.C08'
 RULE = ('queries: every documented primitive with every admissible value, every unordered pair of primitives from different '
         'families, element / list / any / any-metal heads, isotope, charge, radical, API-built (from_atom with all 32 flag sets, '
         'ListElement, AnyMetal; constructor and setter calls with None / int / list / tuple arguments incl. 0 and the maxima); environments: distinct (Z, isotope, charge, radical, neighbours, hybridisation, ring sizes, H, '
@@ -197,7 +197,8 @@ PRIMS = {
     'x': [f'x{i}' for i in range(0, 5)] + ['x1,x2', 'x0,x3'],
     'z': ['z1', 'z2', 'z3', 'z4', 'a', 'z1,z2', 'z2,z4', 'z3,z4', 'z1,z3'],
 }
-HEADS = ['C', 'N', 'O', 'S', 'A', 'M', 'C,N', 'N,O,S', '#6', '#7,#8', 'Cl', 'Fe', 'H', 'F,Cl,Br,I', 'P', 'B']
+HEADS = ['C', 'N', 'O', 'S', 'A', 'M', 'C,N', 'N,O,S', '#6', '#7,#8', 'Cl', 'Fe', 'H', 'F,Cl,Br,I', 'P', 'B',
+         'C,Pb', 'Fe,Pt', 'Ni,Pd,Pt', 'Cl,I,At', '#28,#78', 'U,C,O', 'Ba,La', 'Cs,Ba,La,Hf', 'Pt', 'La', 'Og,C']
 HEAD_EXTRA = ['13C', '2H', '15N', 'C+', 'N+', 'O-', 'N-', 'A+', 'A-', 'C,N+', 'Fe+2', 'C-', '0C', '12C', '14C']
 
 
@@ -521,6 +522,7 @@ def correspond(ctx):
     stream_smarts(ctx, programs)
     stream_skeleton(ctx, programs)
     stream_full_syntax(ctx, programs)
+    stream_history(ctx, programs)
     stream_mapping(ctx, programs)
     ctx.cov['programs'] = len(programs)
     ctx.cov['program_names'] = sorted(programs)
@@ -1078,17 +1080,69 @@ def mapping_patterns(ctx):
     one = [t for t, rad in primitive_queries(ctx) if not rad]
     if ctx.quick:
         one = rng.sample(one, min(len(one), 260))
+    one += random_element_lists(ctx, 60 if ctx.quick else 600) + [f'[{h}]' for h in HEADS]
     two = []
     btoks = ['', '-', '=', '#', ':', '~', '-,=', '=,#', '-,:', '!-', '!=', '!:', '-;@', '-;!@', '=;@', '=;!@', ':;@', '-,=;@', '!-;!@', '~;!@', '~;@']
-    atoms = ['[C]', '[N]', '[O]', '[A]', '[C;D1]', '[C;a]', '[A;!R]', '[A;r6]', '[C,N;z2]', '[O;D1]', '[M]', '[A;x1]', '[C;h3]', '[S]', '[A;r5]', '[Cl,Br,F]']
+    atoms = ['[C]', '[N]', '[O]', '[A]', '[C;D1]', '[C;a]', '[A;!R]', '[A;r6]', '[C,N;z2]', '[O;D1]', '[M]', '[A;x1]', '[C;h3]', '[S]', '[A;r5]', '[Cl,Br,F]',
+             '[C;r5]', '[C;r6]', '[A;r5,r6]', '[A;r4]', '[A;r3,r7]', '[C;D3;r6]', '[C;r5;x0]', '[N,O;r5]', '[A;D2,D3]', '[A;x0,x2]', '[A;h0,h1]', '[A;z1,z4]',
+             '[C,Pt]', '[Cl,Pt]', '[A+]', '[A-]']
     for b in btoks:
-        for _ in range(4 if ctx.quick else 30):
+        for _ in range(6 if ctx.quick else 40):
             two.append(rng.choice(atoms) + b + rng.choice(atoms))
+    # every constrained atom in both positions (the accelerated matcher tests the first and the following atoms in different places)
+    for a in atoms:
+        two.append('[A]' + a)
+        two.append(a + '[A]')
     return one, sorted(set(two))
 
 
 def real_mapping(q, mol):
     return list(q.get_mapping(mol, automorphism_filter=False, _cython=False))
+
+
+def element_soup():
+    """one molecule with every element 1..118 as an isolated neutral atom (for element / element-list / any-metal heads)"""
+    if 'soup' not in _state:
+        from chython import MoleculeContainer
+        from chython.periodictable import Element
+        m = MoleculeContainer()
+        for z in range(1, 119):
+            m.add_atom(Element.from_atomic_number(z)(implicit_hydrogens=0), z, _skip_calculation=True)
+        m.calc_labels()
+        _state['soup'] = m
+    return _state['soup']
+
+
+def random_element_lists(ctx, k):
+    """element lists mixing symbols and #n over the whole table (light / heavy mixes in every order)"""
+    from chython.periodictable import Element
+    rng = ctx.rng
+    syms = {c.atomic_number.fget(None): c.__name__ for c in Element.__subclasses__()}
+    out = []
+    for _ in range(k):
+        zs = rng.sample(range(1, 119), rng.randint(2, 4))
+        if rng.random() < 0.7:      # force a light / heavy mix
+            zs[0] = rng.randint(1, 56)
+            zs[-1] = rng.randint(57, 116)
+            rng.shuffle(zs)
+        out.append('[' + ','.join(syms[z] if rng.random() < 0.75 else f'#{z}' for z in dict.fromkeys(zs)) + ']')
+    return out
+
+
+def accel_gap(text, mol):
+    """documented limits of the accelerated matcher (property C09's known findings): cases they touch are not compared"""
+    import re
+    if any(a.atomic_number > 116 for a in mol._atoms.values()) or re.search(r'Lv|Ts|Og|#11[6-8]', text):
+        return True
+    if re.search(r'[;\[,]h\d', text) and any(a.implicit_hydrogens is None for a in mol._atoms.values()):
+        return True
+    if re.search(r'h([5-9]|1\d)', text) or re.search(r'r(6[6-9]|[7-9]\d|\d{3,})', text):
+        return True
+    if any(a.neighbors > 14 or a.heteroatoms > 14 or (a.implicit_hydrogens or 0) > 4 for a in mol._atoms.values()):
+        return True
+    if re.search(r'\[(\d+)[A-Z]', text):     # isotope windows are C09's
+        return True
+    return False
 
 
 def stream_mapping(ctx, programs):
@@ -1108,6 +1162,8 @@ def stream_mapping(ctx, programs):
         qn = list(q._atoms)
         base = 6 if ctx.quick else 25
         cand = rng.sample(mols, min(len(mols), base * 3))
+        if len(qn) == 1:
+            cand = [('element-soup', element_soup())] + cand
         hits_seen = 0
         for ci, (name, m) in enumerate(cand):
             if ci >= base and hits_seen >= 2:     # after the base sample keep looking only until two molecules matched
@@ -1121,17 +1177,22 @@ def stream_mapping(ctx, programs):
                 disagree(ctx, 'mapping/raises', f'{text} on {name}: {type(e).__name__}: {e}', {'kind': 'match', 'smarts': text, 'mol': wire.mol_to_ints(m)})
                 continue
             hits_seen += bool(maps)
-            # the default (compiled, here pyx2py-rendered) path: informational only — agreement of the two paths is property C09
-            if _state.setdefault('cython_cases', 0) < (300 if ctx.quick else 3000) and len(m) <= 40:
-                _state['cython_cases'] += 1
-                try:
-                    cm = list(q.get_mapping(m, automorphism_filter=False))
-                    same = sorted(map(sorted, (x.items() for x in cm))) == sorted(map(sorted, (x.items() for x in maps)))
-                except Exception as e:
-                    same = False
-                ctx.dist('map:compiled-path-agrees' if same else 'map:compiled-path-differs')
-                if not same and len([x for x in ctx.notes if x.startswith('compiled')]) < 3:
-                    ctx.notes.append(f'compiled (rendered) matcher differs from the Python path for {text} on {name} (C09 domain; informational)')
+            # the default path of the public observation point (accelerated matcher, here the pyx2py rendering): inside the
+            # documented limits of that matcher it has to give the same mappings
+            if len(m) <= 130:
+                if accel_gap(text, m):
+                    ctx.dist('map:default-path-outside-accelerated-domain')
+                else:
+                    try:
+                        cm = list(q.get_mapping(m, automorphism_filter=False))
+                        same = sorted(map(sorted, (x.items() for x in cm))) == sorted(map(sorted, (x.items() for x in maps)))
+                        why = '' if same else f'{len(cm)} mappings vs {len(maps)} in the reference path'
+                    except Exception as e:
+                        same, why = False, f'{type(e).__name__}: {e}'
+                    ctx.dist('map:default-path-agrees' if same else 'map:default-path-differs')
+                    if not same:
+                        disagree(ctx, 'get_mapping-default-path', f'{text} on {name}: {why}',
+                                 {'kind': 'match', 'smarts': text, 'mol': wire.mol_to_ints(m), 'default': True})
             if len(qn) == 1:
                 real = 'ok ' + ' '.join(map(str, sorted(mp[qn[0]] for mp in maps)))
                 op = 'm1'
@@ -1372,6 +1433,98 @@ def check_api(spec, mol):
             bad.append((n, exp, got))
     return bad
 
+
+# ------------------------------------------------------------------------------------------------
+# histories: a query that was already used and is then changed through the public API must match like a fresh query
+# ------------------------------------------------------------------------------------------------
+
+def _maps(q, m, cy):
+    return sorted(tuple(sorted(x.items())) for x in q.get_mapping(m, automorphism_filter=False, _cython=cy))
+
+
+HISTORY_MOLS = ['F/C=C/F', 'F/C=C\\F', 'FC=CF', 'F[C@](Cl)(Br)I', 'F[C@@](Cl)(Br)I', 'FC(Cl)(Br)I', 'CCO.CO.C1CC1O.C=O.[CH2-]O', 'C[N+](C)(C)C.CN.c1ccncc1',
+                'Cl/C=C/Br.Cl/C=C\\Br', 'C1CCC/C=C\\CC1.C/C=C/C']
+
+
+def history_cases():
+    """(name, base SMARTS, edit, SMARTS whose fresh reading is the expected final state or None, accelerated-path relevant)
+    `edit(q)` changes the used query through public setters only"""
+    def setb(n, m, v):
+        return lambda q: setattr(q.bond(n, m), 'stereo', v)
+
+    def seta(n, name, v):
+        return lambda q: setattr(q.atom(n), name, v)
+
+    cases = [
+        ('bond-stereo-set-trans', '[F][C]=[C][F]', setb(2, 3, False), '[F]/[C]=[C]/[F]', True),
+        ('bond-stereo-set-cis', '[F][C]=[C][F]', setb(2, 3, True), '[F]/[C]=[C]\\[F]', True),
+        ('bond-stereo-removed', '[F]/[C]=[C]/[F]', setb(2, 3, None), '[F][C]=[C][F]', True),
+        ('bond-stereo-flipped', '[F]/[C]=[C]/[F]', setb(2, 3, True), '[F]/[C]=[C]\\[F]', True),
+        ('bond-stereo-set-on-list', '[Cl][C]=,#[C][Br]', setb(2, 3, False), '[Cl]/[C]=,#[C]/[Br]', True),
+        ('atom-stereo-set', '[C]([F])([Cl])([Br])[I]', seta(1, 'stereo', True), '[C@]([F])([Cl])([Br])[I]', True),
+        ('atom-stereo-set-other', '[C]([F])([Cl])([Br])[I]', seta(1, 'stereo', False), '[C@@]([F])([Cl])([Br])[I]', True),
+        ('atom-stereo-removed', '[C@]([F])([Cl])([Br])[I]', seta(1, 'stereo', None), '[C]([F])([Cl])([Br])[I]', True),
+        ('atom-stereo-flipped', '[C@]([F])([Cl])([Br])[I]', seta(1, 'stereo', False), '[C@@]([F])([Cl])([Br])[I]', True),
+        ('neighbors-set', '[C][O]', seta(1, 'neighbors', 2), '[C;D2][O]', False),
+        ('neighbors-set-zero-list', '[C][O]', seta(2, 'neighbors', [1, 2]), '[C][O;D1,D2]', False),
+        ('neighbors-removed', '[C;D2][O]', seta(1, 'neighbors', None), '[C][O]', False),
+        ('charge-set', '[C][N]', seta(2, 'charge', 1), '[C][N+]', False),
+        ('charge-removed', '[C-][O]', seta(1, 'charge', 0), '[C][O]', False),
+        ('hydrogens-set', '[C][O]', seta(2, 'implicit_hydrogens', 1), '[C][O;h1]', False),
+        ('heteroatoms-set', '[C][O]', seta(1, 'heteroatoms', 1), '[C;x1][O]', False),
+        ('hybridization-set', '[C][N]', seta(2, 'hybridization', 4), '[C][N;a]', False),
+        ('ring-sizes-set', '[C][O]', seta(1, 'ring_sizes', 3), '[C;r3][O]', False),
+        ('not-in-ring-set', '[C][O]', seta(1, 'ring_sizes', 0), '[C;!R][O]', False),
+        ('ring-sizes-removed', '[C;r3][O]', seta(1, 'ring_sizes', None), '[C][O]', False),
+        ('radical-set', '[C][O]', seta(1, 'is_radical', True), '[C][O] |^1:0|', False),
+        ('isotope-set', '[C][O]', seta(1, 'isotope', 13), '[13C][O]', False),
+    ]
+    return cases
+
+
+def history_case(name, cy):
+    """run one history on the real code; returns None or a description of the first molecule on which the used-then-edited query
+    differs from a fresh query with the same final attributes"""
+    from chython import smarts, smiles
+    c = next(x for x in history_cases() if x[0] == name)
+    _, base, edit, final, _ = c
+    for smi in HISTORY_MOLS:
+        m = smiles(smi)
+        q = smarts(base)
+        _maps(q, m, cy)                 # first use
+        _maps(q, smiles('CC'), cy)      # and on another molecule
+        edit(q)
+        got = _maps(q, m, cy)
+        fresh = smarts(final)
+        want = _maps(fresh, m, cy)
+        # also: a query edited BEFORE its first use (control)
+        q2 = smarts(base)
+        edit(q2)
+        ctrl = _maps(q2, m, cy)
+        if ctrl != want:
+            return f'{base} edited before first use ({name}) vs fresh {final} on {smi}: {len(ctrl)} vs {len(want)} mappings'
+        if got != want:
+            return (f'{base} used, then edited through the API ({name}), on {smi}: {len(got)} mappings, the fresh query {final} '
+                    f'gives {len(want)}')
+    return None
+
+
+def stream_history(ctx, programs):
+    programs.add('QueryContainer.get_mapping after API edits of a used query')
+    for name, base, edit, final, accel in history_cases():
+        for cy in (False, True):
+            sig = 'C08/history/used-query-ignores-api-edit' + ('/accelerated-path' if cy else '')
+            if cy and not accel:
+                sig = 'C08/history/compiled-query-stale-after-setter'
+            try:
+                bad = history_case(name, cy)
+            except Exception as e:
+                bad = f'{name}: {type(e).__name__}: {e}'
+            ctx.count(('history', name, cy), n=len(HISTORY_MOLS))
+            ctx.dist('history:' + ('accelerated' if cy else 'python') + (':differs' if bad else ':ok'))
+            if bad:
+                ctx.fail(sig, bad, {'kind': 'history', 'case': name, 'cython': cy})
+
 # ------------------------------------------------------------------------------------------------
 # property-level oracle (written from the documentation; never consults the Lean model)
 # ------------------------------------------------------------------------------------------------
@@ -1569,7 +1722,67 @@ def oracle_match(d, at):
     return True
 
 
-def check_match(text, mol):
+def _mapping(q, mol, default):
+    """default=True: the public default (accelerated path when available); False: the reference Python path"""
+    if default:
+        return list(q.get_mapping(mol, automorphism_filter=False))
+    return list(q.get_mapping(mol, automorphism_filter=False, _cython=False))
+
+
+def check_pair(text, mol, default=False):
+    """property oracle for a two-atom pattern `[a1]<bond token>[a2]` of documented atoms: expected ordered pairs from the documented
+    meaning of both atoms and of the bond token (ring bond = bond on a cycle). Returns list of ((n, m), expected, got)."""
+    import re
+    from chython import smarts
+    body = text.split()[0]
+    mt = re.fullmatch(r'\[([^\]]*)\]([^\[\]]*)\[([^\]]*)\]', body)
+    if not mt or ' ' in text.strip():
+        return []
+    a1, tok, a2 = mt.groups()
+    d1, d2 = doc_parse_atom(a1), doc_parse_atom(a2)
+    base, _, rm = tok.partition(';')
+    if d1 is None or d2 is None or base not in BOND_DOC or rm not in ('', '@', '!@') or (rm and not base):
+        return []
+    if d1['stereo'] is not None or d2['stereo'] is not None or d1['mapping'] or d2['mapping']:
+        return []
+    if default and accel_gap(text, mol):
+        return []
+    orders = BOND_DOC[base] or {1}
+    ring = {'': None, '@': True, '!@': False}[rm]
+    q = smarts(body)
+    x, y = list(q._atoms)
+    got = {(mp[x], mp[y]) for mp in _mapping(q, mol, default)}
+    adj = {k: [m for m, bb in v.items() if bb.order != 8] for k, v in mol._bonds.items()}
+    attrs = {n: oracle_attrs(mol, n) for n in mol._atoms}
+    bad = []
+    for n, ms in mol._bonds.items():
+        for m, bb in ms.items():
+            e1, e2 = oracle_match(d1, attrs[n]), oracle_match(d2, attrs[m])
+            if e1 is None or e2 is None:
+                continue
+            exp = e1 and e2 and bb.order in orders
+            if exp and ring is not None:
+                if bb.order == 8:
+                    continue          # ring state of a coordination bond: undetermined (see design notes)
+                seen, st, conn = {n}, [n], False
+                while st and not conn:
+                    z = st.pop()
+                    for w in adj[z]:
+                        if (z, w) in ((n, m), (m, n)):
+                            continue
+                        if w == m:
+                            conn = True
+                            break
+                        if w not in seen:
+                            seen.add(w)
+                            st.append(w)
+                exp = conn == ring
+            if exp != ((n, m) in got):
+                bad.append(((n, m), exp, (n, m) in got))
+    return bad
+
+
+def check_match(text, mol, default=False):
     """property oracle for a single-atom documented SMARTS on every atom of mol. Returns list of (atom, expected, got)."""
     from chython import smarts
     body = text.split()[0]
@@ -1580,9 +1793,11 @@ def check_match(text, mol):
         return []
     if '|^1:0|' in text:
         d['radical'] = True
+    if default and accel_gap(text, mol):
+        return []
     q = smarts(text)
     qn = next(iter(q._atoms))
-    got = {mp[qn] for mp in q.get_mapping(mol, automorphism_filter=False, _cython=False)}
+    got = {mp[qn] for mp in _mapping(q, mol, default)}
     bad = []
     for n in mol._atoms:
         exp = oracle_match(d, oracle_attrs(mol, n))
@@ -1668,6 +1883,24 @@ def search(ctx):
             bad = check_accept(body[1:-1], rad='|^1:0|' in t)
             if bad:
                 ctx.fail('C08/documented-atom-misread', bad, {'kind': 'accept', 'smarts': t})
+    # 2a. the disagreeing (pattern, molecule) cases themselves, on the path that disagreed
+    for c in seeds:
+        if c.get('kind') != 'match' or time.time() > t_end:
+            continue
+        try:
+            mol, _ = wire.ints_to_mol(c['mol'], calc=True)
+            for default in ([True] if c.get('default') else [False, True]):
+                bad1 = check_match(c['smarts'], mol, default)
+                bad2 = check_pair(c['smarts'], mol, default)
+                if bad1 or bad2:
+                    what = (f'atom {bad1[0][0]}: documented meaning {"match" if bad1[0][1] else "no match"}' if bad1 else
+                            f'pair {bad2[0][0]}: documented meaning {"match" if bad2[0][1] else "no match"}')
+                    ctx.fail('C08/match-differs-from-documented-meaning' + ('/default-path' if default else ''),
+                             f'{c["smarts"]} ({"default" if default else "reference"} path): {what}, get_mapping says the opposite',
+                             {'kind': 'match', 'smarts': c['smarts'], 'mol': c['mol'], 'default': default})
+                    break
+        except Exception as e:
+            ctx.notes.append(f'search on a disagreeing case raised {type(e).__name__}: {e}')
     # 2. matching: documented single-atom patterns on small molecules vs the independent attribute computation
     mols = [(n, m) for n, m in molecules(ctx) if len(m) <= 30]
     pats = list(dict.fromkeys([t for t in texts if t.count('[') == 1] + [t for t, r in primitive_queries(ctx) if not r]))
@@ -1676,9 +1909,9 @@ def search(ctx):
     for t in pats:
         if time.time() > t_end or len(ctx.failures) > 20:
             break
-        for name, m in rng.sample(mols, min(len(mols), 12)):
+        for name, m in [('element-soup', element_soup())] + rng.sample(mols, min(len(mols), 12)):
             try:
-                bad = check_match(t, m)
+                bad = check_match(t, m) or check_match(t, m, default=True)
             except Exception as e:
                 if isinstance(e, (ValueError,)):
                     continue
@@ -1716,6 +1949,30 @@ def search(ctx):
                 break
         if any(f.signature.startswith('C08/query-api') for f in ctx.failures):
             break
+    # 2c. two-atom patterns of documented atoms and bond tokens, both paths, both atom orders
+    one_, two_ = mapping_patterns(ctx)
+    rng.shuffle(two_)
+    fused = [(n, m) for n, m in mols if any(len(a.ring_sizes) > 1 for a in m._atoms.values())]
+    for t in two_:
+        if time.time() > t_end or any(f.signature.startswith('C08/pair-match') for f in ctx.failures):
+            break
+        for name, m in rng.sample(fused, min(len(fused), 4)) + rng.sample(mols, min(len(mols), 4)):
+            hit = None
+            for default in (False, True):
+                try:
+                    bad = check_pair(t, m, default)
+                except ValueError:
+                    bad = []
+                if bad:
+                    hit = (default, bad[0])
+                    break
+            if hit:
+                default, (pair, exp, got) = hit
+                ctx.fail('C08/pair-match-differs-from-documented-meaning' + ('/default-path' if default else ''),
+                         f'{t} on {name} ({"default" if default else "reference"} path) pair {pair}: documented meaning says '
+                         f'{"match" if exp else "no match"}, get_mapping says {"match" if got else "no match"}',
+                         {'kind': 'match', 'smarts': t, 'mol': wire.mol_to_ints(m), 'default': default})
+                break
     # 3. bonds: two-atom patterns, documented meaning of the bond token
     bond_search(ctx, t_end, texts)
     # 3c. ring-closure bonds with query bond tokens
@@ -2054,8 +2311,15 @@ def probe(inp):
         return False, f'smarts({t!r}) -> {str(out)[:300]}'
     if kind == 'match':
         mol, _ = wire.ints_to_mol(inp['mol'], calc=True)
+        dflt = bool(inp.get('default'))
         try:
-            bad = check_match(inp['smarts'], mol)
+            bad = check_match(inp['smarts'], mol, dflt)
+            if not bad:
+                bp = check_pair(inp['smarts'], mol, dflt)
+                if bp:
+                    pair, exp, got = bp[0]
+                    return True, (f'{inp["smarts"]} pair {pair}: documented meaning {"match" if exp else "no match"}, get_mapping '
+                                  f'{"match" if got else "no match"} ({"default" if dflt else "reference"} path)')
         except Exception as e:
             return True, f'{inp["smarts"]} raises {type(e).__name__}: {e}'
         if bad:
@@ -2112,6 +2376,12 @@ def probe(inp):
             if got != exp:
                 return True, f'atom {n}: labels (neighbors, heteroatoms, hybridization, in_ring) {got}, independent computation {exp}'
         return False, 'labels agree with the independent computation'
+    if kind == 'history':
+        try:
+            bad = history_case(inp['case'], bool(inp.get('cython')))
+        except Exception as e:
+            bad = f'{type(e).__name__}: {e}'
+        return bool(bad), bad or f'history {inp["case"]}: the edited query matches like a fresh one'
     if kind == 'tetra':
         try:
             exp, got = tetra_case(inp['q'], inp['m'], tuple(inp['perm']))
